@@ -568,7 +568,7 @@ func runGCConc(env *ev.Env, c Case) (o ev.Outcome) {
 	var mu sync.Mutex
 	var ivs []interval
 	var problems []string
-	var known3 int
+	var known3, known2 int
 	hits := 0
 	start := make(chan struct{})
 	var wg sync.WaitGroup
@@ -582,6 +582,7 @@ func runGCConc(env *ev.Env, c Case) (o ev.Outcome) {
 				var prob string
 				hit := false
 				torn := false
+				tornMem := false
 				switch op.Op {
 				case "set":
 					val := mkValue(op.K, t+1, i, op.Len)
@@ -610,6 +611,11 @@ func runGCConc(env *ev.Env, c Case) (o ev.Outcome) {
 						} else if key, w, sq, ok := parseValue(b); !ok || key != keyName(op.K) || w < 1 || w > len(c.Threads) || sq >= len(c.Threads[w-1]) || c.Threads[w-1][sq].Op != "set" || !invoked[w-1][sq].Load() {
 							if c.Persistor == "fs" && positionwiseMixZ(b, planned[op.K], true) && env.Known(mInPlace) {
 								torn = true
+							} else if c.Persistor == "mem" && positionwiseMix(b, planned[op.K]) && env.Known(mMapRace) {
+								// a racy read of the unguarded map can see a torn slice header (data
+								// race = undefined behaviour); the parent accepts this only if the race
+								// detector reported the map race in this very process
+								tornMem = true
 							} else {
 								what := "a torn or partial value"
 								if ok && key != keyName(op.K) {
@@ -636,6 +642,9 @@ func runGCConc(env *ev.Env, c Case) (o ev.Outcome) {
 				if torn {
 					known3++
 				}
+				if tornMem {
+					known2++
+				}
 				mu.Unlock()
 			}
 		}(t, ops)
@@ -646,6 +655,9 @@ func runGCConc(env *ev.Env, c Case) (o ev.Outcome) {
 	sort.Strings(problems)
 	if len(problems) > 0 {
 		o.Failf("%s (and %d more)", problems[0], len(problems)-1)
+	}
+	if known2 > 0 {
+		o.Count("gc-conc:mem-torn-hits-under-map-race", known2)
 	}
 	if known3 > 0 {
 		o.KnownHits = append(o.KnownHits, "KF-C19-3")
@@ -1355,6 +1367,16 @@ func classifyStderr(env *ev.Env, c Case, stderr string, o *ev.Outcome) {
 		o.Failf("DATA RACE reported by the race detector:\n%s", trim(dedupFrames(block), 4000))
 		return
 	}
+	// The runtime prints "fatal error: concurrent map writes" unsynchronised with the
+	// race detector's report, so the two texts can be interleaved ("fatal error:
+	// =====...WARNING: DATA RACE"): accept the words anywhere after "fatal error:".
+	if i := strings.Index(stderr, "fatal error: "); i >= 0 && strings.Contains(stderr[i:], "concurrent map") && !strings.Contains(stderr, "fatal error: concurrent map") {
+		if strings.Contains(stderr[i:], inmem) && c.Persistor == "mem" && env.Known(mMapRace) {
+			o.KnownHits = append(o.KnownHits, "KF-C19-2")
+			o.Excluded = true
+			return
+		}
+	}
 	if i := strings.Index(stderr, "fatal error: concurrent map"); i >= 0 {
 		tail := stderr[i:]
 		// the first goroutine trace is the one that detected the concurrent access
@@ -1467,7 +1489,19 @@ func runInChild(env *ev.Env, c Case) (o ev.Outcome) {
 			return
 		}
 	}
+	hitsBefore := len(o.KnownHits)
 	classifyStderr(env, c, stderr.String(), &o)
+	if n := o.Counters["gc-conc:mem-torn-hits-under-map-race"]; n > 0 && !o.Failed() {
+		raceSeen := false
+		for _, k := range o.KnownHits[hitsBefore:] {
+			if k == "KF-C19-2" {
+				raceSeen = true
+			}
+		}
+		if !raceSeen {
+			o.Failf("in-memory persistor: %d hits returned a torn or partial value and the race detector reported no race on the persistor's map in that process", n)
+		}
+	}
 	if rerr != nil && !o.Failed() && !o.Excluded {
 		o.Failf("child process died without an outcome (%v):\n%s", runErr, trim(stderr.String(), 3000))
 	}
